@@ -63,6 +63,10 @@ CLAIMED.update({
         text="0-10 connections at various stages and a stop request at a random instant, deliberately also at the exact instant of a connect (issued before or after it); each scenario runs with and without the stop. Oracle: nothing served to connections that arrived after the stop, they see EOF by the time listen() returns; connections accepted strictly before the stop end exactly as in the stop-free run; listen() returns Ok, no earlier than the last served connection's end and within the timeout.",
         note="Connects issued at the stop's own instant before it count as queued: fully served or nothing are both accepted. Keep Alive packets are excluded from the comparison (tick ties).",
         tech="deterministic simulation with a stop signal at arbitrary and tied instants; differential drain oracle"),
+    "C20": dict(cat="exploration", ref="DESIGN.md 4 (C20)",
+        text="The real AgonesDiscoveryAdapter, kube client stack and kube-runtime watcher/backoff run against an in-process simulated Kubernetes API server under virtual time: seeded histories of create / replace (all Agones states, unconvertible shapes) / delete with BOOKMARKs, dropped watches (EOF, I/O error, mid-line), HTTP 500, compaction and in-stream 410 (re-list), expired continue tokens, pagination, latency, arbitrary chunk boundaries, duplicate delivery, watch timeouts. After every step the run settles (bounded liveness, 180 s virtual) and discover() must equal the set derived from the server's single-copy store.",
+        note="The simulated server is written to the list/watch contract kube-runtime expects; oracle compares only at settle points.",
+        tech="deterministic simulation against a simulated API server; reference-model (single-copy store) comparison at settle points + bounded liveness"),
 })
 
 NOT_APPLICABLE = {
